@@ -340,7 +340,13 @@ Definition reflect_seal (SO : stf_oracle) (pre post : wstate) (a : option action
   ++ flag 16 (forallb (fun k => match s_pools post !! poolkey_code k with
                                 | Some p => (0 <? p_lefts p) && (0 <? p_rights p) | None => false end)
                 ([poolkey_new Mel Sym; poolkey_new Mel Erg] ++ (if tip_902 pre then [poolkey_new Erg Sym] else []))) 1
-  ++ flag 16 (forallb (fun kp => coin_supply (Custom (so_liq_denom SO (fst kp))) (s_coins post) <=? p_liqs (snd kp))
+  (* the liquidity tokens in coins never exceed the recorded liquidity - stated as: sealing never makes the
+     shortfall (tokens in coins - recorded liquidity, 0 when backed) of any pool grow.  The only way to a
+     positive shortfall is a test-network faucet that mints a pool's token, which is explicit issuance (C01). *)
+  ++ flag 16 (forallb (fun kp =>
+        let d := Custom (so_liq_denom SO (fst kp)) in
+        let before := match s_pools pre !! fst kp with Some p0 => p_liqs p0 | None => 0 end in
+        (coin_supply d (s_coins post) - p_liqs (snd kp)) <=? (coin_supply d (s_coins pre) - before))
                 (map_to_list (s_pools post))) 2
   (* C17 *)
   ++ (match a with
